@@ -1168,8 +1168,10 @@ class NestedPipeFunc(PipeFunc):
 
     @functools.cached_property
     def func(self) -> Callable[..., tuple[Any, ...]]:  # type: ignore[override]
-        func = self.pipeline.func(self.pipeline.unique_leaf_node.output_name)
-        return _NestedFuncWrapper(func.call_full_output, self.output_name)
+        leaf_output_name = at_least_tuple(self.pipeline.unique_leaf_node.output_name)[0]
+        func = self.pipeline.func(leaf_output_name)
+        # The inner pipeline knows the outputs by their original (not renamed) names
+        return _NestedFuncWrapper(func.call_full_output, self._output_name)
 
     @functools.cached_property
     def __name__(self) -> str:  # type: ignore[override]
